@@ -525,7 +525,7 @@ const mxjProbeSeqDoc = `<p:A z-z="1&amp;"><!--c--><B-c> v </B-c><d>&lt;7</d></p:
 
 func mxjProbeMap() mxj.Map {
 	return mxj.Map{"doc": map[string]interface{}{"-x": "1", "@y": "2", "#text": "t<", "_text": "u",
-		"e": []interface{}{"a", "", map[string]interface{}{"-k": "v"}}, "g": map[string]interface{}{}}}
+		"e": []interface{}{"a", "", map[string]interface{}{"-k": "v"}}, "g": map[string]interface{}{}, "E": "w", "-X": "3"}}
 }
 func mxjLeafMap() mxj.Map {
 	return mxj.Map{"doc": map[string]interface{}{"-x": "1", "@y": "2", "#text": "t", "_text": "u",
@@ -665,6 +665,9 @@ func mxjOp(st mxjStep) (name, got, want string) {
 			wide[i] = "v" + strconv.Itoa(i+1)
 		}
 		vals, err := mxj.Map{"a": wide}.ValuesForPath(st.Arg)
+		// (a result belongs to the caller whatever the array-size register holds: two other queries come before it is read)
+		mxj.Map{"q": []interface{}{"p", "q", "r"}}.ValuesForPath("q")
+		mxj.Map{"q": []interface{}{"s", "t"}}.ValuesForKey("q")
 		return fmt.Sprintf("ValuesForPath(%q) on a list of 40", st.Arg), strings.Join(tagged.CanonList(vals), " ") + fmt.Sprint(err), strings.Join(tagged.NormList(exp), " ") + "<nil>"
 	case "newmap":
 		var tv tagged.TV
@@ -851,6 +854,8 @@ func mxjOp(st mxjStep) (name, got, want string) {
 			panic(err)
 		}
 		vals, err := mxjQueryMap().ValuesForKey("a", st.Arg)
+		mxj.Map{"q": []interface{}{"s", "t"}}.ValuesForKey("q")
+		mxj.Map{"q": []interface{}{"p", "q", "r"}}.ValuesForPath("q")
 		name = fmt.Sprintf("ValuesForKey(\"a\", %q)", st.Arg)
 		if !exp.Ok {
 			return name + " error class", cls(err), "err"
